@@ -1,5 +1,6 @@
 import GormModel.Drv.Util
 import GormModel.Model.Tx
+import GormModel.Gen.BeginFacts
 open Lean
 namespace Gorm.Drv
 open Gorm.Tx
@@ -38,6 +39,17 @@ partial def parseProg (j : Json) : Option Prog := do
       | "chain" => some Derive.chain | "initialized" => some Derive.initialized | "debug" => some Derive.debug
       | _ => none
     some (.dv k body (← jBool? (arg a 4)))
+  | "fh" =>
+    -- ["fh", kind, tag, body, must]: the body runs on a handle that ALREADY CARRIES AN ERROR; the class before ':' says where
+    -- the error comes from (adderr = Session/WithContext + AddError(user error `tag`), firstmiss = the handle returned by
+    -- `First(&item, -1)`)
+    let kind ← jStr? (arg a 1)
+    let t ← jNat? (arg a 2)
+    let body ← (← jArr? (arg a 3)).toList.mapM parseProg
+    let src ← match (kind.splitOn ":").headD "" with
+      | "adderr" => some (FailSrc.addErr t) | "firstmiss" => some FailSrc.firstMiss
+      | _ => none
+    some (.fh src body (← jBool? (arg a 4)))
   | "man" =>
     let body ← (← jArr? (arg a 1)).toList.mapM parseProg
     let fin ← match (← jNat? (arg a 2)) with
@@ -52,6 +64,7 @@ def atomJ : ErrAtom → Json
   | .txDone => Json.str "txDone"
   | .noSavepoint => Json.str "noSavepoint"
   | .conflict => Json.str "conflict"
+  | .notFound => Json.str "notFound"
 
 def resJ : Res → Json
   | .ok => Json.arr #[Json.str "ok"]
@@ -74,7 +87,8 @@ def poolJ : Pool → Json
 
 def parseCfg (j : Json) : Option Cfg := do
   let g (k : String) : Option Bool := (j.getObjVal? k).toOption >>= jBool?
-  some { prep := ← g "prep", dis := ← g "dis", skip := ← g "skip" }
+  -- `beginGuard` is not an input: it follows the code under test (regenerated fact, extract/gen_c04.go)
+  some { prep := ← g "prep", dis := ← g "dis", skip := ← g "skip", beginGuard := Gen.beginChecksError }
 
 end HC04
 open HC04 in
@@ -83,6 +97,9 @@ open HC04 in
     ["tx.writest", …] -> `writeSt` (Statement.ConnPool after a write) -/
 def handleC04 (op : String) (args : Array Json) : Option Json := do
   match op with
+  | "tx.facts" =>
+    -- the regenerated fact that selects the transcription of Begin (the harness' generators stop avoiding a repaired pattern)
+    some (Json.mkObj [("beginChecksError", Json.bool Gen.beginChecksError)])
   | "tx.run" =>
     let cfg ← parseCfg (arg args 1)
     let mask ← (← jArr? (arg args 2)).toList.mapM jNat?
